@@ -17,10 +17,14 @@
 (*   FailPuts       number of Puts on Garble's error paths (the randomness *)
 (*                  source fails after Get): 1 as coded, 2 is the deviation*)
 (*                  "deferred Put plus one leftover explicit Put"          *)
+(*   UseAfterRelease  FALSE as coded: a holder (circuit.Garbler decoding   *)
+(*                  the result labels, Eval) reads its garbling only while *)
+(*                  it has not released it; TRUE is the deviation "release *)
+(*                  the scratch early and keep a slice of it"              *)
 (***************************************************************************)
 EXTENDS Integers, Sequences, FiniteSets, TLC
 
-CONSTANTS Procs, MaxOps, UseCAS, ReleaseClears, PutOnReturn, FailPuts
+CONSTANTS Procs, MaxOps, UseCAS, ReleaseClears, PutOnReturn, FailPuts, UseAfterRelease
 
 VARIABLES poolPtr,   \* 0 = nil, else pool id
           pooled,    \* pool id -> bag of buffers: buffer -> count
@@ -125,12 +129,22 @@ Release(p) ==
             ELSE UNCHANGED <<pooled, handles>>
     /\ UNCHANGED <<poolPtr, npools, nbufs, nhandles, pc, lp, cur, writing, content, bad>>
 
+\* the holder reads its garbling: the session decodes the result labels against its output wires, Eval reads the
+\* tables.  What it reads must be its own garbling, complete.
+Use(p) ==
+    /\ pc[p] = "idle"
+    /\ \E h \in DOMAIN handles :
+         /\ handles[h].proc = p
+         /\ h \in live \/ (UseAfterRelease /\ h \notin WritersOf(handles[h].buf))
+         /\ bad' = IF content[handles[h].buf] # h \/ WritersOf(handles[h].buf) # {} THEN "stale-use" ELSE bad
+    /\ UNCHANGED <<poolPtr, pooled, npools, nbufs, nhandles, pc, lp, cur, handles, live, writing, content, ops>>
+
 \* the runtime drops pooled buffers at any time
 Drop == /\ \E q \in DOMAIN pooled : \E b \in InBag(pooled[q]) :
              pooled' = [pooled EXCEPT ![q] = BagDel(@, b)]
         /\ UNCHANGED <<poolPtr, npools, nbufs, nhandles, pc, lp, cur, handles, live, writing, content, ops, bad>>
 
-Next == Drop \/ \E p \in Procs : StartGarble(p) \/ Load(p) \/ Cas(p) \/ Get(p) \/ GarbleFails(p) \/ FillBegin(p) \/ FillEnd(p) \/ Release(p)
+Next == Drop \/ \E p \in Procs : StartGarble(p) \/ Load(p) \/ Cas(p) \/ Get(p) \/ GarbleFails(p) \/ FillBegin(p) \/ FillEnd(p) \/ Release(p) \/ Use(p)
 Spec == Init /\ [][Next]_vars
 
 (***************************************************************************)
